@@ -189,8 +189,10 @@ GoOn(b) == IF cur = "div" THEN GoDiv(b) ELSE GoNew(b)
 Set(c) == /\ pc' = c.pc /\ cur' = c.cur /\ bstart' = c.bstart /\ pend' = c.pend /\ ret' = c.ret
 
 ----------------------------------------------------------------------------
-Act(op, res, inj, n, t, hs) ==
-  [op |-> op, run |-> run, res |-> res, inj |-> inj, n |-> n, t |-> t, hs |-> hs, cfg |-> cfg]
+ActS(op, res, inj, sn, n, t, hs) ==
+  [op |-> op, run |-> run, res |-> res, inj |-> inj, sn |-> sn, n |-> n, t |-> t, hs |-> hs,
+   cfg |-> cfg]
+Act(op, res, inj, n, t, hs) == ActS(op, res, inj, 0, n, t, hs)
 
 Finish(a) ==
   /\ act'  = a
@@ -276,18 +278,34 @@ DivVerify ==
          /\ UNCHANGED <<cfg, stores, run, reg, nf>>
          /\ Finish(Act("DivVerify", IF ok THEN "ok" ELSE "err", "none", 0, NF, <<>>))
 
-Injs == {"none"} \cup (IF nf > 0 /\ run = 1
-                       THEN {"err"} \cup (IF WithCrash THEN {"cb", "ca"} ELSE {})
-                       ELSE {})
+\* Where a store call of the import may stop: <<inj, sn>>.
+\*   err   the call returns an injected error and does nothing
+\*   cb/ca the process dies right before / right after the call
+\*   cw    it dies inside the call, after sn HALF entries of the flat-file
+\*         write reached the disk (a torn append)
+\*   c2    it dies inside the call between its two durable steps (append:
+\*         file written, index not; rollback: index updated, file not)
+Stops(k, twoStep) ==
+  {<<"none", 0>>}
+  \cup (IF nf > 0 /\ run = 1
+        THEN {<<"err", 0>>}
+             \cup (IF WithCrash
+                   THEN {<<"cb", 0>>, <<"ca", 0>>}
+                        \cup (IF twoStep THEN {<<"c2", 0>>} ELSE {})
+                        \cup {<<"cw", j>> : j \in 1..(2 * k - 1)}
+                   ELSE {})
+        ELSE {})
 
 Crashed == /\ up' = 2 /\ pc' = "recover" /\ nf' = 0
            /\ UNCHANGED <<cfg, run, reg, cur, bstart, pend, ret>>
 
-WriteB(inj) ==
-  LET w == WB(bfile, idx, btip, pend.bh)
-      a(res) == Act("WriteB", res, inj, Len(pend.bh), NF, pend.bh)
+WriteB(st) ==
+  LET inj == st[1]
+      w == WB(bfile, idx, btip, pend.bh)
+      a(res) == ActS("WriteB", res, inj, st[2], Len(pend.bh), NF, pend.bh)
+      part(j) == [i \in 1..(j \div 2) |-> pend.bh[i][1]]
   IN
-  /\ pc = "writeB" /\ inj \in Injs
+  /\ pc = "writeB" /\ st \in Stops(Len(pend.bh), Len(pend.bh) > 0)
   /\ CASE inj = "none" ->
             /\ bfile' = w.bf /\ idx' = w.ix /\ btip' = w.bt
             /\ pc' = "writeF"
@@ -304,12 +322,22 @@ WriteB(inj) ==
             /\ bfile' = w.bf /\ idx' = w.ix /\ btip' = w.bt
             /\ Crashed /\ UNCHANGED <<ffile, ftip>>
             /\ Finish(a("crash"))
+       [] inj = "c2" ->
+            /\ bfile' = w.bf
+            /\ Crashed /\ UNCHANGED <<ffile, idx, btip, ftip>>
+            /\ Finish(a("crash"))
+       [] inj = "cw" ->
+            /\ bfile' = bfile \o part(st[2])
+            /\ Crashed /\ UNCHANGED <<ffile, idx, btip, ftip>>
+            /\ Finish(a("crash"))
 
-WriteF(inj) ==
-  LET w == WF(ffile, ftip, pend.fh, pend.t)
-      a(res) == Act("WriteF", res, inj, Len(pend.fh), pend.t, pend.fh)
+WriteF(st) ==
+  LET inj == st[1]
+      w == WF(ffile, ftip, pend.fh, pend.t)
+      a(res) == ActS("WriteF", res, inj, st[2], Len(pend.fh), pend.t, pend.fh)
+      part(j) == [i \in 1..(j \div 2) |-> pend.fh[i][1]]
   IN
-  /\ pc = "writeF" /\ inj \in Injs
+  /\ pc = "writeF" /\ st \in Stops(Len(pend.fh), Len(pend.fh) > 0)
   /\ CASE inj = "none" ->
             /\ ffile' = w.ff /\ ftip' = w.ft
             /\ Set(GoOn(pend.bend + 1))
@@ -326,13 +354,22 @@ WriteF(inj) ==
             /\ ffile' = w.ff /\ ftip' = w.ft
             /\ Crashed /\ UNCHANGED <<bfile, idx, btip>>
             /\ Finish(a("crash"))
+       [] inj = "c2" ->
+            /\ ffile' = w.ff
+            /\ Crashed /\ UNCHANGED <<bfile, idx, btip, ftip>>
+            /\ Finish(a("crash"))
+       [] inj = "cw" ->
+            /\ ffile' = ffile \o part(st[2])
+            /\ Crashed /\ UNCHANGED <<bfile, idx, btip, ftip>>
+            /\ Finish(a("crash"))
 
-RollbackB(inj) ==
-  LET n == Len(pend.bh)
+RollbackB(st) ==
+  LET inj == st[1]
+      n == Len(pend.bh)
       r == RB(bfile, idx, btip, n)
-      a(res) == Act("RollbackB", res, inj, n, NF, <<>>)
+      a(res) == ActS("RollbackB", res, inj, st[2], n, NF, <<>>)
   IN
-  /\ pc = "rollback" /\ inj \in Injs
+  /\ pc = "rollback" /\ st \in Stops(0, n > 0 /\ r.ok)
   /\ CASE inj = "none" ->
             /\ bfile' = r.bf /\ idx' = r.ix /\ btip' = r.bt
             /\ pc' = "ret" /\ ret' = "err"
@@ -348,6 +385,10 @@ RollbackB(inj) ==
        [] inj = "ca" ->
             /\ bfile' = r.bf /\ idx' = r.ix /\ btip' = r.bt
             /\ Crashed /\ UNCHANGED <<ffile, ftip>>
+            /\ Finish(a("crash"))
+       [] inj = "c2" ->
+            /\ idx' = r.ix /\ btip' = r.bt
+            /\ Crashed /\ UNCHANGED <<bfile, ffile, ftip>>
             /\ Finish(a("crash"))
 
 Return ==
@@ -404,6 +445,10 @@ Init ==
                  x |-> x, kind |-> kind, fy |-> fy, fk |-> fk]
        /\ Anom(cfg) <= MaxAnom
        /\ (kind # "none" => fy = NF)      \* the whole filter file already differs from x on
+       \* configurations that fail before the file's headers are looked at
+       \* (file-level damage, a gap, an unreadable filter tip) are not
+       \* multiplied with the deviations of the headers
+       /\ (fk # "none" \/ s > Min2(hB, hF) + 1 \/ hF > hB) => (kind = "none" /\ fy = NF)
        /\ nf = IF Anom(cfg) < MaxAnom THEN MaxFaults ELSE 0
   /\ bfile = [p \in 1..(cfg.hB + 1) |-> p - 1]
   /\ ffile = [p \in 1..(cfg.hF + 1) |-> p - 1]
@@ -412,13 +457,14 @@ Init ==
   /\ up = 1 /\ pc = "begin" /\ run = 1
   /\ reg = NoReg /\ cur = "none" /\ bstart = 0 /\ pend = NoPend /\ ret = "ok"
   /\ abs = AbsInit
-  /\ act = [op |-> "Init", run |-> 0, res |-> "ok", inj |-> "none", n |-> 0, t |-> NF,
+  /\ act = [op |-> "Init", run |-> 0, res |-> "ok", inj |-> "none", sn |-> 0, n |-> 0, t |-> NF,
             hs |-> <<>>, cfg |-> cfg]
   /\ viol = {}
 
 Next ==
   \/ Begin \/ Open \/ Compat \/ Cont \/ ValB \/ ValF \/ Regions \/ DivVerify
-  \/ \E inj \in {"none", "err", "cb", "ca"} : WriteB(inj) \/ WriteF(inj) \/ RollbackB(inj)
+  \/ \E st \in {"none", "err", "cb", "ca", "c2", "cw"} \X (0..(2 * MaxBatch)) :
+        WriteB(st) \/ WriteF(st) \/ RollbackB(st)
   \/ Return \/ Recover \/ Probe
 
 Spec == Init /\ [][Next]_vars
